@@ -173,7 +173,8 @@ def run(ctx):
     ctx.trusted += ["scipy.signal.find_peaks default algorithm is modelled by its input/output contract (plateau midpoints)"]
     rng = np.random.default_rng(ctx.seed)
     n = ctx.budget(400, 6000)
-    cases = []
+    cases = [dict(c["case"], corpus=True) for c in load_corpus("C16")]
+    ctx.count("corpus_cases", len(cases))
     for i in range(n):
         kind = ["generic", "generic", "edge", "exact"][i % 4]
         c = gen_case(rng, kind)
@@ -203,7 +204,7 @@ def run(ctx):
                           dict(case=c, impl_output=im, model_output=mo, mismatches=[list(map(str, b)) for b in bad]),
                           seam="hvsrpy.sesame.reliability/clarity")
         # property probes on the implementation (supporting tests, not proof)
-        if i % 5 == 0:
+        if i % 5 == 0 or c.get("corpus"):
             v1, v2 = impl(c, verbose=1), impl(c, verbose=2)
             ctx.supporting["verbosity_cases"] = ctx.supporting.get("verbosity_cases", 0) + 1
             if v1 != im or v2 != im:
